@@ -328,6 +328,39 @@ func unhashable(kind uint64) (ok bool) {
 		m10.m[[1]any{[]int{1}}] = 1 // unhashable value nested in a hashable-looking array
 	case 4:
 		_ = m10.m[struct{ x any }{[]int{}}] // lookups hash the key too
+	case 5: // reads and deletes hash the key even when the map is nil or empty
+		var m map[[2]any]int
+		_ = m[[2]any{[]int{1}, 1}]
+	case 6:
+		m := map[[2]any]int{}
+		_ = m[[2]any{1, map[int]int{}}]
+	case 7:
+		m := map[[2]any]int{}
+		delete(m, [2]any{func() {}, 2})
+	case 8:
+		var m map[struct {
+			n int
+			a [1]any
+		}]int
+		_, _ = m[struct {
+			n int
+			a [1]any
+		}{1, [1]any{[]int{}}}]
+	case 9:
+		m := map[[1][1]any]string{}
+		delete(m, [1][1]any{{[]string{"x"}}})
+	case 10: // control: hashable dynamic values in the same key types do not panic
+		var m map[[2]any]int
+		_ = m[[2]any{1, "a"}]
+		m2 := map[[1][1]any]string{}
+		delete(m2, [1][1]any{{3}})
+		ok = true
+	case 11:
+		m := map[any]int{}
+		_ = m[[]int{1}]
+	case 12:
+		var m map[any]int
+		delete(m, map[int]int{})
 	}
 	return
 }
